@@ -269,6 +269,11 @@ def grad_case():
       'has_aux': st.booleans(), 'vag': st.booleans(),
       'two_args': st.booleans(),
       'seed': st.integers(0, 2**16),
+      # calls made on ONE transformed function object before the call that
+      # is checked last: valid calls, calls that are rejected (integer
+      # parameters without allow_int) and edits of undifferentiated state
+      'history': st.lists(st.sampled_from(['valid', 'reject', 'mutate',
+                                           'mutate']), max_size=3),
   })
 
 
@@ -276,7 +281,9 @@ def grad_case():
         quick_shards=16, thorough_shards=16, shrink=False,
         rule='nnx.grad / nnx.value_and_grad with argnums = int or DiffState('
         'argnum, filter) (Param, BatchStat, PathContains("w"), Any) x has_aux '
-        'x one or two module arguments: the gradient State contains exactly '
+        'x one or two module arguments x 0-3 earlier uses of the same '
+        'transformed function (valid calls, rejected calls, edits of '
+        'undifferentiated state): the gradient State contains exactly '
         'the selected paths and equals jax.grad of the loss written over '
         'nnx.split/merge; forward side effects (a counter) are applied once '
         'to the caller\'s objects; non-trivial = filter is not the default or '
@@ -332,12 +339,35 @@ def grad_vs_jax(case, ctx):
       return pure(a1, a2)
     l, (g1, g2) = jax.value_and_grad(pure_vals, argnums=(0, 1))(pv1, pv2)
     return l, g1, g2
+  with sut('nnx.grad (wrap)'):
+    gf = tr(lambda a, b, xx: loss(a, b if two else None, xx),
+            argnums=argnums, has_aux=case['has_aux'])
+  hist = list(case.get('history', []))
+  for hi, step in enumerate(hist):
+    if step == 'mutate':
+      # undifferentiated state changes between calls
+      m1.mean.value = m1.mean.value + 0.5 * (hi + 1)
+      m1.count.value = m1.count.value + 2.0
+      m2.mean.value = m2.mean.value * 0.5
+    elif step == 'reject':
+      bad = Blk(d, BASE(d))
+      fill(bad, rng, none_axes, 1)
+      bad.w.value = jnp.ones(bad.w.value.shape, jnp.int32)
+      bad.mean.value = bad.mean.value + 100.0
+      try:
+        gf(bad, bad if two else m2, x)
+      except Exception:  # noqa: the rejection itself is not checked here
+        pass
+    else:
+      with sut('nnx.grad (earlier call)'):
+        gf(m1, m2, x)
   l_ref, g1_ref, g2_ref = ref()
   count_before = np.asarray(m1.count.value).copy()
   ids = {k: id(getattr(m1, k)) for k in BASE(d)}
+  before_nondiff = {k: np.asarray(getattr(m1, k).value).copy()
+                    for k in BASE(d)}
   with sut('nnx.grad'):
-    out = tr(lambda a, b, xx: loss(a, b if two else None, xx),
-             argnums=argnums, has_aux=case['has_aux'])(m1, m2, x)
+    out = gf(m1, m2, x)
   if case['vag']:
     val, grads = out
     lval = val[0] if case['has_aux'] else val
@@ -369,8 +399,16 @@ def grad_vs_jax(case, ctx):
   require(close(m1.count.value, count_before + 1.0), lambda: 'counter after '
           f'grad = {np.asarray(m1.count.value)}, expected exactly one '
           f'forward pass ({count_before + 1.0})')
+  # state the loss does not write is left as the caller set it
+  for k in BASE(d):
+    if k != 'count':
+      require(np.array_equal(np.asarray(getattr(m1, k).value),
+                             before_nondiff[k]), lambda: f'Variable {k} of '
+              f'the argument changed from {before_nondiff[k]} to '
+              f'{np.asarray(getattr(m1, k).value)} although the loss does '
+              f'not write it (history {hist})')
   ctx.note(labels=[case['wrt'], 'vag' if case['vag'] else 'grad',
-                   'two' if two else 'one'],
+                   'two' if two else 'one'] + sorted(set(hist)),
            nontrivial=case['wrt'] != 'default' or two)
 
 
